@@ -39,7 +39,8 @@ def run(pid, tier):
         'evaluations': len(rows),
         'distinct_nontrivial': sum(1 for r in rows if r['t'] in ('chan', 'edge') and (r.get('a') != r.get('b') or r.get('e') != r.get('f'))),
         'rule': 'every ordered pair of channel identifiers over %d qubits x 4 channel kinds, every ordered pair of proper edges over %d qubits, '
-                'all qubit-name pairs, all sequences of length <= %d over 3 elements, 200 random identifier sequences; '
+                'all qubit-name pairs, all sequences of length <= %d over 3 elements, all sequences of length <= 4 over 5 pairwise unequal integers of which two pairs share a hash value '
+                '(and all triples over 4 channel identifiers with such indices), 200 random identifier sequences; '
                 'non-trivial = pair of two different identifiers' % (nq, ne, ml),
         'samples': [rows[1], rows[len(rows) // 2], rows[-1]],
         'rows_by_kind': kinds, 'exhaustive': True,
